@@ -152,7 +152,7 @@ func (e *engine) Meta() harness.Meta {
 			"interrupts are not delivered on the evaluation step of a marker itself, so markers are exact",
 		},
 		FaultKinds:    []string{"interrupt", "io_error", "cleanup_error", "schedule_perturbation"},
-		QuickCases:    1600,
+		QuickCases:    2400,
 		ThoroughCases: 60000,
 	}
 }
